@@ -33,6 +33,7 @@ def build(E, tier):
                          iter_kinds=("re-iterable", "one-shot") if tier == "thorough" else ("one-shot",))
     cm.verify_public_fetch(E)
     hm.verify_hash_single(E)
+    cm.verify_client_ctor(E, "C07")         # ignore_exc read by the fetch path is the constructor's argument
     hmany.verify_hash_many(E, methods=("get_many", "gets_many"), prop="C12")
 
 
